@@ -138,6 +138,10 @@ StateK(k) == LET d == 2^NQ IN
     [] k = 5 -> [i \in 1..d |-> IF i <= 4 THEN (IF i = 2 THEN CMul(CI, CHalf) ELSE IF i = 3 THEN CNeg(CHalf) ELSE CHalf) ELSE CZero]
 QuadForm(M, v) == CSumSeq([i \in 1..Len(v) |-> CMul(CConj(v[i]), MApply(M, v)[i])])
 
+\* ---- an operator's value from the values of its terms (evaluate_operator) -----------------------------------------------
+CRe(z) == CMul(CHalf, CAdd(z, CConj(z)))
+TermValues(ts, k) == [i \in 1..Len(ts) |-> QuadForm(Denote(<<Tm(ts[i].ops, COne)>>, NQ), StateK(k))]          \* <psi| P_i |psi>
+EvalFromTermValues(ts, vals) == CSumSeq([i \in 1..Len(ts) |-> CRe(CMul(ts[i].c, vals[i]))])               \* mechanism: the loop
 \* ---- the register machine --------------------------------------------------------------------------------
 NoM == <<>>
 Ev(op, x, y, k, res, b, m) == [op |-> op, x |-> x, y |-> y, k |-> k, res |-> res, b |-> b, m |-> m]
@@ -166,6 +170,12 @@ Unary(op, x, k) ==
                          /\ acc' = ReverseV(x, Width(x.ts) + k) /\ ev' = Ev(op, x, x, Width(x.ts) + k, acc', FALSE, NoM)
     [] op = "expect" -> x.t # "num" /\ k \in 1..5 /\ acc' = acc
                          /\ ev' = Ev(op, x, x, k, acc, FALSE, <<<<QuadForm(Denote(x.ts, NQ), StateK(k))>>>>)
+    \* a coefficient vector and a label matrix (0..3 = I, X, Y, Z per qubit) turned into an operator: the term list of x read that way
+    [] op = "fromlabels" -> x.t = "sum" /\ k = 0 /\ acc' = S(Simplify(x.ts)) /\ ev' = Ev(op, x, x, 0, acc', FALSE, NoM)
+    \* evaluate_operator: the value of an operator from the expectation values of its terms (here: the exact ones under state k);
+    \* m = the per-term values <P_i>, res = the number  sum_i Re(c_i <P_i>)
+    [] op = "evaluate" -> x.t # "num" /\ k \in 1..5 /\ acc' = acc
+                         /\ ev' = Ev(op, x, x, k, N(EvalFromTermValues(x.ts, TermValues(x.ts, k))), FALSE, <<TermValues(x.ts, k)>>)
     [] op = "circuit" -> x.t = "term" /\ k = 0 /\ Width(x.ts) >= 1 /\ acc' = acc
                          /\ ev' = Ev(op, x, x, Width(x.ts), acc, FALSE, CircuitMech(x.ts[1].ops, Width(x.ts)))
     \* the matrix an operator denotes, expanded in the Pauli basis again (Hermitian, symmetric, neither: the expansion may not branch on it)
@@ -213,6 +223,10 @@ ReverseIsBitReversal == ev.op = "reverse" =>
     /\ Denote(ev.res.ts, ev.k) = BitRevConj(Denote(ev.x.ts, ev.k), ev.k)
     /\ Denote(ReverseV(ev.res, ev.k).ts, ev.k) = Denote(ev.x.ts, ev.k)          \* twice = identity
 ExpectationIsQuadraticForm == ev.op = "expect" => ev.m[1][1] = QuadForm(SparseMech(ev.x.ts, NQ), StateK(ev.k))
+\* beyond the listed clauses: a label matrix denotes the sum of its rows' strings; the value assembled from the terms' exact
+\* expectation values is the real part of the operator's own expectation (linearity; like terms and their order do not matter)
+FromLabelsDenotes == ev.op = "fromlabels" => D(ev.res) = D(ev.x) /\ IsSimplified(ev.res)
+EvaluateIsExpectation == ev.op = "evaluate" => ev.res.ts[1].c = CRe(QuadForm(Denote(ev.x.ts, NQ), StateK(ev.k)))
 \* beyond the listed clauses: the circuit of a term acts as the term's Pauli string (coefficient aside) on the term's own width
 TermCircuitIsString == ev.op = "circuit" => ev.m = Denote(<<Tm(ev.x.ts[1].ops, COne)>>, ev.k)
 NoOverflow == \A i \in 1..Len(acc.ts) : CSmall(acc.ts[i].c)
